@@ -889,3 +889,116 @@ Proof.
 Qed.
 
 End MachineProofs.
+
+(* ================================================================== part 2: views *)
+Arguments push_sync {K KO}.
+Arguments flush {K KO}.
+Arguments push_async {K KO}.
+Arguments take_chunks {K KO}.
+Arguments append {K KO}.
+Arguments finish {K KO}.
+Arguments next_id {K KO}.
+Arguments clone_id {K KO}.
+Arguments write_chunk_marker {K KO}.
+Arguments push_ooo {K KO}.
+Arguments push_to_last_sync {K KO}.
+
+Section ViewInd.
+Variable P : view -> Prop.
+Hypothesis HT : forall s, P (VText s).
+Hypothesis HE : forall t c, P c -> P (VElem t c).
+Hypothesis HTu : forall vs, Forall P vs -> P (VTuple vs).
+Hypothesis HS : forall f c, P c -> P (VSuspend f c).
+Hypothesis HB : forall f fb c sm, P fb -> P c -> P (VBoundary f fb c sm).
+Hypothesis HA : forall c, P c -> P (VAppend c).
+Hypothesis HRS : forall s, P (VRawSync s).
+Hypothesis HRA : forall f c, P c -> P (VRawAsync f c).
+Fixpoint view_ind' (v : view) : P v :=
+  match v with
+  | VText s => HT s
+  | VElem t c => HE t c (view_ind' c)
+  | VTuple vs =>
+      HTu vs ((fix go (vs : list view) : Forall P vs :=
+                 match vs with
+                 | [] => Forall_nil P
+                 | v :: vs => Forall_cons v (view_ind' v) (go vs)
+                 end) vs)
+  | VSuspend f c => HS f c (view_ind' c)
+  | VBoundary f fb c sm => HB f fb c sm (view_ind' fb) (view_ind' c)
+  | VAppend c => HA c (view_ind' c)
+  | VRawSync s => HRS s
+  | VRawAsync f c => HRA f c (view_ind' c)
+  end.
+End ViewInd.
+
+(** the list loops of the tuple cases, as functions *)
+Fixpoint render_list (ooo : bool) (d : fid -> bool) (vs : list view) (b : vsb) (pos : position)
+  : vsb * position :=
+  match vs with
+  | [] => (b, pos)
+  | v :: vs => let '(b, pos) := render ooo d v b pos in render_list ooo d vs b pos
+  end.
+Fixpoint resolved_list (vs : list view) (pos : position) : html * position :=
+  match vs with
+  | [] => ([], pos)
+  | v :: vs => let '(h, pos) := resolved v pos in
+               let '(h', pos) := resolved_list vs pos in (h ++ h', pos)
+  end.
+Fixpoint to_html_list (d : fid -> bool) (vs : list view) (pos : position) : html * position :=
+  match vs with
+  | [] => ([], pos)
+  | v :: vs => let '(h, pos) := to_html d v pos in
+               let '(h', pos) := to_html_list d vs pos in (h ++ h', pos)
+  end.
+
+Lemma render_tuple ooo d v vs b pos :
+  render ooo d (VTuple (v :: vs)) b pos = render_list ooo d (v :: vs) b pos.
+Proof.
+  cbn [render render_list]. destruct (render ooo d v b pos) as [b1 p1].
+  revert b1 p1. induction vs as [|w vs IH]; intros b1 p1; cbn [render_list]; auto;
+    try (destruct (render ooo d w b1 p1) as [b2 p2]; apply IH).
+Qed.
+Lemma resolved_tuple v vs pos :
+  resolved (VTuple (v :: vs)) pos = resolved_list (v :: vs) pos.
+Proof.
+  cbn [resolved resolved_list]. destruct (resolved v pos) as [h1 p1].
+  revert p1. induction vs as [|w vs IH]; intros p1; cbn [resolved_list]; auto;
+    try (destruct (resolved w p1) as [h2 p2]; rewrite IH; reflexivity).
+Qed.
+Lemma to_html_tuple d v vs pos :
+  to_html d (VTuple (v :: vs)) pos = to_html_list d (v :: vs) pos.
+Proof.
+  cbn [to_html to_html_list]. destruct (to_html d v pos) as [h1 p1].
+  revert p1. induction vs as [|w vs IH]; intros p1; cbn [to_html_list]; auto;
+    try (destruct (to_html d w p1) as [h2 p2]; rewrite IH; reflexivity).
+Qed.
+
+Notation vchunkT := (chunk clo oclo).
+
+(* ------------------------------------------------------------------ builder facts *)
+Lemma render_keeps ooo d v : forall b pos,
+  pending (fst (render ooo d v b pos)) = pending b /\
+  pending_ooo (fst (render ooo d v b pos)) = pending_ooo b.
+Proof.
+  induction v using view_ind'; intros b pos.
+  - simpl. auto.
+  - cbn [render]. destruct (render ooo d v _ FirstChild) as [b1 p1] eqn:E.
+    specialize (IHv (push_sync (open_tag t) b) FirstChild). rewrite E in IHv. simpl in *. auto.
+  - destruct vs as [|v vs]; [simpl; auto|]. rewrite render_tuple.
+    revert b pos. induction H as [|w ws Hw Hws IH]; intros b pos; cbn [render_list]; auto.
+    destruct (render ooo d w b pos) as [b1 p1] eqn:E.
+    specialize (Hw b pos). rewrite E in Hw. simpl in Hw.
+    destruct (IH b1 p1) as [A B]. destruct Hw as [C D]. split; congruence.
+  - cbn [render]. destruct (d f); [apply IHv|].
+    destruct ooo; simpl; unfold write_chunk_marker, next_id, push_async, flush; simpl;
+      repeat (match goal with |- context [match ?x with _ => _ end] => destruct x end; simpl); auto.
+  - cbn [render]. destruct (d f).
+    + destruct sm; [destruct (IHv2 (next_id b) pos)|destruct (IHv1 (next_id b) pos)]; simpl in *; auto.
+    + destruct ooo; simpl; unfold write_chunk_marker, next_id, push_async, flush; simpl;
+      repeat (match goal with |- context [match ?x with _ => _ end] => destruct x end; simpl); auto.
+  - cbn [render]. destruct (render ooo d v _ pos) as [nb p1]. unfold append, flush. simpl.
+    repeat (match goal with |- context [if ?x then _ else _] => destruct x end; simpl); auto.
+  - simpl. auto.
+  - cbn [render]. unfold push_async, flush. simpl.
+    repeat (match goal with |- context [if ?x then _ else _] => destruct x end; simpl); auto.
+Qed.
